@@ -323,9 +323,9 @@ void run(size_t idx) {
 
 MonReg reg({"C12", "exploration",
 			"models: the real LE/SE samples x option combinations, API-built SK and SSE models (1-3 shapes, 3..300 vertices, skinned with 1..120 bones and 1..6 influences or unskinned, "
-			"vertex colours random / all white / none, random partitions, extra data, sibling name clashes; one case in 16 with vertices no triangle uses as a labelled stress dimension) x "
+			"vertex colours random / all white / none, random partitions, extra data, sibling name clashes, more than 80 bones in one partition, faces the stored partitions do not list, model-space-normal shaders, converted object used before; one case in 16 with vertices no triangle uses as a labelled stress dimension) x "
 			"option combinations (removeParallax, calcBounds, fixBSXFlags, fixShaderFlags, headParts for single dynamic-capable shapes). Oracle per shape matched by name: positions "
-			"bit-exact, triangle sets equal, UVs within half-float rounding, colours within 1/255 (all-white may be dropped), bone list equal, per-vertex weights equal to the normalised "
+			"bit-exact, triangle multisets equal, UVs within half-float rounding, colours within 1/255 (all-white may be dropped), bone list equal, per-vertex weights equal to the normalised "
 			"four largest within 2e-3 (ties at the cut skipped), parent node and shader block kept, sibling names distinct; converted file reloads in the target version and satisfies the "
 			"C10 partition invariants; converting back returns equivalent geometry. Non-trivial = model that passed conversion, reload, and back-conversion.",
 			[] { Plan p = plan(); return realSamples().size() * (size_t)p.optsPerReal + p.api; }, run, 8, 300.0, false, false, nullptr});
